@@ -69,7 +69,9 @@ RULE = ("(a) seeded random class specifications (harness/initgen.py option space
         "cache_hash x unsafe_hash x init; (c') the cached-property __getattr__ wrapper; (d) histories of up to 6 same-module classes over qualnames K, K-1, K-2 with repeated "
         "and distinct bodies and garbage collection in between; (e) 2/4/8 threads defining same-qualname "
         "classes with different bodies under sys.setswitchinterval(1e-6), 60% of them with a trace hook that "
-        "yields between the lines of _linecache_and_compile; (f) in a fresh interpreter 40 classes defined in ONE "
+        "yields between the lines of _linecache_and_compile, and in two thirds of them 1-2 further threads publishing "
+        "and deleting globals of the defining module (its namespace changes SIZE while classes are defined; a "
+        "failed definition is a never-predicted observation); (f) in a fresh interpreter 40 classes defined in ONE "
         "module binding a global __dict__ (the defect fixed by 8708354) / a control set of other internal names; "
         "(g) converter OBJECTS with a history: one attr.Converter / converters.optional(Converter) / pipe(Converter, ..) "
         "/ plain function object first used for a field of one or two earlier classes, or for another field of the same "
@@ -216,6 +218,8 @@ def extend_spec(rng, s, rich=True):
     s["c_init"] = rng.random() < 0.9
     s["qual"] = "K"
     s["nest"] = rng.choice([None, None, "function", "class"])
+    # the other branch of the repr generator (attr.s only)
+    s["repr_ns"] = "NS" if s["api"] == "attrs" and rng.random() < 0.3 else None
     return s
 
 
@@ -396,6 +400,8 @@ class TextClass(g.ClassUnderTest):
             kwargs["unsafe_hash"] = True
         if not s.get("c_repr", True):
             kwargs["repr"] = False
+        elif s.get("repr_ns") and s["api"] == "attrs":
+            kwargs["repr_ns"] = s["repr_ns"]
         if not s.get("c_init", True):
             kwargs["init"] = False
         if s["on_setattr"] is not None:
@@ -426,7 +432,10 @@ class TextClass(g.ClassUnderTest):
         d = self.env.ns
         d["H"] = H
         try:
-            exec(compile(text, "<c17 %s>" % self.env.name, "exec"), d)
+            import warnings
+            with warnings.catch_warnings():
+                warnings.simplefilter("ignore", DeprecationWarning)      # repr_ns
+                exec(compile(text, "<c17 %s>" % self.env.name, "exec"), d)
             self.cls = d["K_"]
         except ValueError as e:
             self.def_error = ("ValueError", str(e))
@@ -1537,6 +1546,7 @@ def grid_source_cases(which=None):
     out = []
     for slots, frozen, cache, uh, init in itertools.product([False, True], repeat=5):
         tag = "s%d f%d c%d u%d i%d" % (slots, frozen, cache, uh, init)
+        repr_ns = (slots + frozen + cache + uh + init) % 2 == 1
         if which is not None and which != tag:
             continue
         e = Env("clean")
@@ -1546,13 +1556,18 @@ def grid_source_cases(which=None):
                 kw["cache_hash"] = True
             if uh:
                 kw["unsafe_hash"] = True
+            if repr_ns:
+                kw["repr_ns"] = "NS"
             H = {"deco": attr.s, "kw": kw, "ib": attr.ib, "Factory": attr.Factory,
                  "cp": functools.cached_property(lambda self: 1)}
             text = ('@H["deco"](**H["kw"])\nclass K:\n    x = H["ib"](default=1)\n'
                     '    y = H["ib"](default=H["Factory"](list), eq=False)\n' + ('    cp = H["cp"]\n' if slots else '') + 'K_ = K\n')
             e.ns["H"] = H
             try:
-                exec(compile(text, "<c17 %s>" % e.name, "exec"), e.ns)
+                import warnings
+                with warnings.catch_warnings():
+                    warnings.simplefilter("ignore", DeprecationWarning)
+                    exec(compile(text, "<c17 %s>" % e.name, "exec"), e.ns)
             except TypeError:
                 continue            # cache_hash without hashing: rejected by attrs (C04's table)
             cls = e.ns["K_"]
@@ -1687,14 +1702,39 @@ def thr_case(plan):
             finally:
                 sys.settrace(None)
 
+        stop = threading.Event()
+        n_mut = int(plan.get("mutators", 0))
+        if n_mut:
+            for i in range(400):          # a namespace of realistic size
+                d["g_%d" % i] = i
+
+        def mutate(k):
+            # publishes fresh module globals and deletes them again: the SIZE of the namespace changes
+            # while classes are being defined in it
+            i = 0
+            while not stop.is_set():
+                name = "pub_%d_%d" % (k, i % 50)
+                d[name] = i
+                if i % 3:
+                    d.pop("pub_%d_%d" % (k, (i - 1) % 50), None)
+                i += 1
+                if i % 64 == 0:
+                    time.sleep(0)
+
+        muts = [threading.Thread(target=mutate, args=(k,), daemon=True) for k in range(n_mut)]
         ths = [threading.Thread(target=work, args=(k,), daemon=True) for k in range(n)]
         sys.setswitchinterval(1e-6)
+        for t in muts:
+            t.start()
         for t in ths:
             t.start()
         hung = False
         for t in ths:
             t.join(timeout=300)
             hung = hung or t.is_alive()
+        stop.set()
+        for t in muts:
+            t.join(timeout=30)
         sys.setswitchinterval(old)
         flat = [(bid, cls) for r in results for bid, cls in r]
         expected = sum(len(x) for x in plan["threads"])
@@ -1711,6 +1751,10 @@ def thr_case(plan):
                     sig={"layer": "runtime", "family": "thr"}, nontrivial=True,
                     key="thr:" + json.dumps(plan, sort_keys=True) + term.replace(e.name, ""))
     finally:
+        try:
+            stop.set()
+        except NameError:
+            pass
         sys.setswitchinterval(old)
         e.close()
 
@@ -1776,7 +1820,8 @@ def gen_thr_plan(rng):
     n = rng.choice([2, 4, 8])
     m = rng.randint(2, 6)
     pool = rng.sample(range(len(BODIES)), rng.randint(2, min(12, len(BODIES))))
-    return {"threads": [[rng.choice(pool) for _ in range(m)] for _ in range(n)], "yield_lines": rng.random() < 0.6}
+    return {"threads": [[rng.choice(pool) for _ in range(m)] for _ in range(n)], "yield_lines": rng.random() < 0.6,
+            "mutators": rng.choice([0, 1, 2])}
 
 
 def safe(fn, inp, *args, **kw):
